@@ -156,6 +156,31 @@ def units(tier):
                 v.post = _frame_post
                 U.append(v)
 
+    # ---- get_cycle_vector on an UNWRAPPED phase (values above 2 pi: the re-wrapping branch) must not write into the caller's array
+    import emd.cycles as ECY
+
+    def mk_unw(c):
+        T = z3.Int('T')
+        c.assume(T >= 2)
+        for ax in npshim.pi_axioms():
+            c.assume(ax)
+        ph, P = vec('phase_unwrapped', T)
+        return (ph,), dict(return_good=False)
+
+    def call_unw(f, c, a, kw):
+        g = f.__globals__
+
+        class Utils:
+            wrap_phase = staticmethod(g['wrap_phase'])
+        g['utils'] = Utils
+        return f(*a, **kw)
+    triv = {'inv': [('true', lambda e: True)]}
+    v = Unit('frame:get_cycle_vector[unwrapped phase]', 'emd/cycles.py', 'get_cycle_vector', mk_unw, _frame_post, module=ECY, wrap_call=call_unw,
+             loops={0: dict(triv), 1: dict(triv)}, inline=[('emd/support.py', 'ensure_2d', {}), ('emd/utils.py', 'wrap_phase', {})])
+    v.frame = True
+    v.keep_kinds = ('frame', 'post')
+    U.append(v)
+
     # ---- amplitude_normalise: works on a copy for 2-d and for 3-d (second-layer) input
     import emd.utils as EU
     for nd in (2, 3):
@@ -294,9 +319,42 @@ def replay(w):
             return _replay_routine(w)
         if kind == 'routine_len':
             return _replay_len(w)
+        if kind == 'frame_phase':
+            return _replay_frame_phase(w)
         if kind == 'second_layer':
             return _replay_second(w)
     return False, 'unknown witness kind'
+
+
+def _replay_frame_phase(w):
+    """cycle routines on a read-only phase array - wrapped, or UNWRAPPED (values above 2 pi: get_cycle_vector re-wraps it internally)"""
+    import emd
+    CY = emd.cycles
+    n = 300
+    ph = np.cumsum(np.full(n, 2 * np.pi * 0.031)) + 0.4
+    if not w['unwrapped']:
+        ph = ph % (2 * np.pi)
+    if w.get('ndim', 1) == 2:
+        ph = np.c_[ph, ph[::-1].copy()] if w['routine'] == 'get_cycle_vector' else ph[:, None]
+    before = ph.copy()
+    ph.setflags(write=False)
+    calls = {'get_cycle_vector': lambda: CY.get_cycle_vector(ph, return_good=False),
+             'get_cycle_vector[good]': lambda: CY.get_cycle_vector(ph, return_good=True),
+             'Cycles': lambda: CY.Cycles(ph).cycle_vect}
+    import contextlib, io
+    try:
+        with contextlib.redirect_stdout(io.StringIO()):        # (get_cycle_vector prints 'Wrapping phase')
+            r1 = np.asarray(calls[w['routine']]())
+            r2 = np.asarray(calls[w['routine']]())
+    except Exception as ex:
+        if 'read-only' in str(ex):
+            return True, '%s writes into its (read-only) %s phase array: %s' % (w['routine'], 'unwrapped' if w['unwrapped'] else 'wrapped', ex)
+        return True, '%s raised %s: %s' % (w['routine'], type(ex).__name__, ex)
+    if not np.array_equal(ph, before):
+        return True, '%s modified the phase array passed to it' % w['routine']
+    if not np.array_equal(r1, r2):
+        return True, '%s gives different results on a repeated call' % w['routine']
+    return False, 'ok'
 
 
 def _replay_len(w):
@@ -505,6 +563,15 @@ def refute(tier, seed, emit):
                 if ok:
                     cl = {'layouts': 'layout-insensitive', 'frame': 'inputs-never-modified', 'determinism': 'deterministic', 'rejects': 'multi-column-input-rejected'}[what]
                     emit.violation('%s:%s' % (cl, name.split('[')[0]), w, msg)
+        emit.scope('cycle routines (get_cycle_vector all / good cycles, Cycles) on a read-only phase, wrapped and UNWRAPPED (values above 2 pi), 1-d and 2-d: array unchanged, no write attempted, repeated call identical')
+        for routine in ('get_cycle_vector', 'get_cycle_vector[good]', 'Cycles'):
+            for unw in (False, True):
+                for nd in (1, 2):
+                    emit.case(('frame_phase', routine, unw, nd), nontrivial=unw, contract=routine)
+                    w = {'kind': 'frame_phase', 'routine': routine, 'unwrapped': unw, 'ndim': nd}
+                    ok, msg = replay(w)
+                    if ok:
+                        emit.violation('inputs-never-modified:%s' % routine.split('[')[0], w, msg)
         # 3. multi-array routines: mismatched lengths rejected
         emit.scope('multi-array routines (hilberthuang, holospectrum, phase_align, bin_by_phase with and without weights, get_cycle_vector with mask, get_cycle_stat, ensure_equal_dims on three arrays): equal lengths accepted, mismatched lengths rejected with ValueError - for three arrays with each single array out of step in turn; inputs unchanged')
         for name, good, bad in _multi_array_cases():
